@@ -107,6 +107,10 @@ def run(ctx, factor):
     good_in = sc.write(text, ".s")
     bad_yaml = sc.write("pattern: [mov\n  - {x\n", ".yaml")
     notobj = sc.write("this is not an object file\n", ".bin")
+    empty_rule = sc.write("", ".yaml")
+    list_rule = sc.write("- mov\n- ret\n", ".yaml")
+    scalar_rule = sc.write("just a string\n", ".yaml")
+    empty_input = sc.write("", ".s")
     adir = os.path.join(sc.dir, "adir")
     os.makedirs(adir, exist_ok=True)
     missing = os.path.join(sc.dir, "does-not-exist")
@@ -114,6 +118,9 @@ def run(ctx, factor):
         cases = [
             ("malformed-yaml", dict(rule_path=bad_yaml, input_path=good_in), {"err": 1}, text),
             ("rule-file-missing", dict(rule_path=missing, input_path=good_in), {"err": 1}, text),
+            ("rule-file-empty", dict(rule_path=empty_rule, input_path=good_in), None, text),
+            ("rule-file-is-a-yaml-list", dict(rule_path=list_rule, input_path=good_in), None, text),
+            ("rule-file-is-a-yaml-scalar", dict(rule_path=scalar_rule, input_path=good_in), None, text),
             ("rule-file-is-a-directory", dict(rule_path=adir, input_path=good_in), {"err": 1}, text),
             ("input-file-missing", dict(rule_path=good_rule, input_path=missing), None, None),
             ("input-file-is-a-directory", dict(rule_path=good_rule, input_path=adir), None, None),
@@ -123,7 +130,10 @@ def run(ctx, factor):
         ]
         for name, paths, docj, t in cases:
             res = impl.run_op(sc, BASE_RULE, None, **paths, **kw)
-            req = {"op": "run", "doc": docj if docj else model.y2j(BASE_RULE), "kind": "binary" if "binary_path" in paths else "assembly",
+            special = {"rule-file-empty": None, "rule-file-is-a-yaml-list": ["mov", "ret"], "rule-file-is-a-yaml-scalar": "just a string"}
+            if name in special:
+                docj = model.y2j(special[name])
+            req = {"op": "run", "doc": docj if (docj or name in special) else model.y2j(BASE_RULE), "kind": "binary" if "binary_path" in paths else "assembly",
                    "mode": kw["mode"], "addrOnly": False, "ret": kw["ret"]}
             if t is not None:
                 req["text"] = t
